@@ -6,7 +6,7 @@ from . import scenario as S
 
 KW_PROC = {"exp": 5, "cmd": 3, "group": 1, "combine": 1}
 KW_EXP = {"exp": 8, "cmd": 1, "group": 1, "combine": 1}
-KW_ALL = {"exp": 4, "cmd": 3, "group": 2, "combine": 2}
+KW_ALL = {"exp": 4, "cmd": 3, "group": 2, "combine": 2, "xgroup": 1}
 
 
 def _pkgs(r):
@@ -246,7 +246,7 @@ def _git_history(r, tasks, n_ops, *, where_p=0.25, fail_p=0.0, flags_p=0.45, job
                 if other:
                     new_commit(parents=[state["head"], branches[other]])
             else:
-                ops.append({"op": "git", "action": "dirty", "value": r.random() < 0.7})
+                ops.append({"op": "git", "action": "dirty", "value": r.choice([True, True, "staged", False])})
             continue
         if c < 0.46:
             ops.append({"op": "config", "disable_git": r.random() < 0.5})
@@ -370,15 +370,26 @@ def gen_C08(r):
                 for lst in op["scripts"].values():
                     for sc in lst:
                         sc["steps"] = [st_ for st_ in sc["steps"] if st_[0] != "adv"]
+            if k and r.random() < 0.12:
+                # cond started from inside a task of an outer run (or from a shell that exports these)
+                op["env"] = {"COND_OUT": "@abs-expdir:%d" % r.randrange(6), "COND_NAME": "outer"}
             f = r.random()
             if f < 0.15:
                 op["signal"] = {"sig": r.choice(["INT", "TERM"]), "cp": int(10 ** r.uniform(1.5, 3.6))}
             elif f < 0.3:
                 op["kill"] = int(10 ** r.uniform(1.5, 3.6))
             ops.append(op)
-        elif c < 0.75:
+        elif c < 0.70:
             ops.append({"op": "archive", "out": "A%d" % k, "flags": {"latest": r.random() < 0.3}, "gap": gap, "cwd": ""})
             have_arch = "A%d" % k
+        elif c < 0.75 and ops:
+            # the same tasks run elsewhere at the same time: same version ids, other contents
+            exps = [t for t, d in scn["tasks"].items() if d["kind"] == "exp"]
+            runs_ = [j for j, o in enumerate(ops) if o["op"] == "run"]
+            if exps and runs_:
+                ops.append({"op": "foreign", "clock_of_step": r.choice(runs_), "targets": r.sample(exps, r.randint(1, min(2, len(exps)))),
+                            "out": "F%d" % k, "scripts": {t: [S.simple_script(r, t, "exp", files=True)] for t in exps}})
+                ops.append({"op": "restore", "archive": "F%d" % k, "cwd": ""})
         elif c < 0.85 and have_arch:
             if r.random() < 0.6:
                 ops.append({"op": "clean", "cwd": ""})
@@ -419,8 +430,8 @@ def gen_C06(r):
     ops = []
     if not scn["disable_git"] and r.random() < 0.6:
         ops += [{"op": "git", "action": "init"}, {"op": "git", "action": "commit", "name": "c0"}]
-        if r.random() < 0.4:
-            ops.append({"op": "git", "action": "dirty", "value": True})
+        if r.random() < 0.5:
+            ops.append({"op": "git", "action": "dirty", "value": r.choice([True, "staged"])})
     def run_op(**kw):
         op = _run_op(r, scn["tasks"], jobs_choices=(None, None, 2), again_p=kw.get("again_p", 0.3),
                      fail_p=r.choice([0.0, 0.2, 0.4]), files=True, out=True, cwds=("",),
@@ -531,7 +542,10 @@ def gen_C16(r):
     scn = _small_project(r, n=(2, 5), kinds={"exp": 6, "cmd": 3, "group": 1, "combine": 1}, p_par=0.7)
     scn["knobs"]["p_async"] = r.choice([0.0, 1e-3, 5e-3, 2e-2])
     ops = []
-    if r.random() < 0.3:
+    if r.random() < 0.15:
+        exps_ = [t for t, d in scn["tasks"].items() if d["kind"] == "exp"]
+        ops.append({"op": "legacy_index", "rows": [[t, scn["epoch"] - 1000 - 7 * j] for j, t in enumerate(exps_[:3])]})
+    elif r.random() < 0.3:
         ops.append(_run_op(r, scn["tasks"], jobs_choices=(None, 2), again_p=0.0, files=False, cwds=("",)))
     op = _run_op(r, scn["tasks"], jobs_choices=(None, 1, 2, 2, 3), again_p=0.7,
                  fail_p=r.choice([0.0, 0.0, 0.2]), files=r.random() < 0.5, out=r.random() < 0.5, cwds=("",),
@@ -746,6 +760,13 @@ def gen_C13(r):
         elif c < 0.5:
             rop["corrupt"] = {"kind": "missing_member", "idx": r.randrange(3)}
         ops.append(rop)
+    if r.random() < 0.25:
+        exps = [t for t, d in scn["tasks"].items() if d["kind"] == "exp"]
+        runs_ = [j for j, o in enumerate(ops) if o["op"] == "run"]
+        if exps and runs_:
+            ops.append({"op": "foreign", "clock_of_step": r.choice(runs_), "targets": r.sample(exps, r.randint(1, min(2, len(exps)))),
+                        "out": "F0"})
+            ops.append({"op": "restore", "archive": "F0", "cwd": ""})
     if r.random() < 0.7:
         ops.append({"op": "plant", "items": _plants(r)})
     n_gc = r.choice([1, 1, 2])
